@@ -38,6 +38,7 @@ func TestVerif(t *testing.T) {
 		verifC09(t, r, out)
 	case "C10":
 		verifC10Group(t, r, out)
+		verifC10GroupQ(t, r, out)
 	case "C12":
 		verifC12(t, r, out)
 	case "C17":
